@@ -191,6 +191,19 @@ def _representations(which):
         with pysam.AlignmentFile(os.path.join(d, "empty.bam"), "wb", template=inp) as out:
             pass
         pysam.index(os.path.join(d, "empty.bam"))
+        # the same records with the duplicate / QC-fail bits set on a part of them (samtools markdup and the like): the pipeline treats them as
+        # ordinary records, so a split of that file by flag is one more partition of the same alignments
+        names = {}
+        for name, keep in (("flagged.bam", None), ("flag_clear.bam", False), ("flag_set.bam", True)):
+            with pysam.AlignmentFile(os.path.join(d, name), "wb", template=inp) as out:
+                for idx, a in enumerate(recs):
+                    marked = names.setdefault(a.query_name, (len(names) * 104729) % 5 == 0)
+                    b = pysam.AlignedSegment.fromstring(a.to_string(), inp.header)
+                    if marked:
+                        b.flag = b.flag | (0x400 if len(a.query_name) % 2 else 0x200)
+                    if keep is None or keep == marked:
+                        out.write(b)
+            pysam.index(os.path.join(d, name))
         env = dict(os.environ, HOME=os.path.join(d, "home"))
         os.makedirs(env["HOME"], exist_ok=True)
 
@@ -217,6 +230,10 @@ def _representations(which):
             variants["empty_first_bam"] = run("emptyfirst", ["empty.bam", "chr9.4M.ont.sim.polya.bam"], "chr9.4M.gtf.gz", ["--complete_genedb"])
         if "empty_last_bam" in which:
             variants["empty_last_bam"] = run("emptylast", ["chr9.4M.ont.sim.polya.bam", "empty.bam"], "chr9.4M.gtf.gz", ["--complete_genedb"])
+        bases = {}
+        if "split_by_flag" in which:
+            bases["split_by_flag"] = run("flagged", ["flagged.bam"], "chr9.4M.gtf.gz", ["--complete_genedb"])
+            variants["split_by_flag"] = run("byflag", ["flag_clear.bam", "flag_set.bam"], "chr9.4M.gtf.gz", ["--complete_genedb"])
         if "plain_gtf" in which:
             variants["plain_gtf"] = run("plain", ["chr9.4M.ont.sim.polya.bam"], "plain.gtf", ["--complete_genedb"])
         if "inferred" in which:
@@ -230,11 +247,14 @@ def _representations(which):
         for vname, v in variants.items():
             if v is None:
                 continue
-            for fn in base:
-                if base[fn] is None or v[fn] is None:
+            ref = bases.get(vname, base)
+            if ref is None:
+                continue
+            for fn in ref:
+                if ref[fn] is None or v[fn] is None:
                     continue
-                a, b = base[fn], v[fn]
-                if vname in ("split_bam", "empty_first_bam", "empty_last_bam") and fn.startswith("S.read_assignments"):
+                a, b = ref[fn], v[fn]
+                if vname in ("split_bam", "empty_first_bam", "empty_last_bam", "split_by_flag") and fn.startswith("S.read_assignments"):
                     # the file label column may differ; compare read id, isoform, type, exons
                     key = lambda l: tuple(l.split("\t")[:8])
                     a, b = sorted(map(key, a)), sorted(map(key, b))
@@ -251,13 +271,13 @@ def replay_repr(d):
 
 
 @bounded("C12.representations", ["C12"], note="real pipeline runs on the bundled chr9 data: the same alignments as one BAM, split over two "
-         "BAMs, or accompanied by a BAM without a single record (first or last in the list), the annotation gzipped or plain (thorough: also as the pre-built gffutils database and with inferred genes/transcripts) "
+         "BAMs, accompanied by a BAM without a single record (first or last in the list), or split by the duplicate / QC-fail flag bits, the annotation gzipped or plain (thorough: also as the pre-built gffutils database and with inferred genes/transcripts) "
          "must give identical read assignments, corrected alignments and ungrouped reference-based tables (as multisets of records)")
 def c12_repr(tier, rng):
-    which = ["split_bam", "empty_first_bam", "plain_gtf"] if tier == "quick" else ["split_bam", "empty_first_bam", "empty_last_bam", "plain_gtf", "inferred", "prebuilt_db"]
+    which = ["split_bam", "empty_first_bam", "split_by_flag", "plain_gtf"] if tier == "quick" else ["split_bam", "empty_first_bam", "empty_last_bam", "split_by_flag", "plain_gtf", "inferred", "prebuilt_db"]
     p = _representations(which)
     viol = []
     if p:
         viol.append({"obligation": "C12.representations", "inputs": {"which": which}, "observed": p[:4],
                      "required": "identical outputs", "replay_call": "contracts.c_inputs:replay_repr"})
-    return {"cases": len(which) + 1, "bound": "bundled chr9 data; variants %s" % which, "violations": viol, "samples": [{"variants": which}]}
+    return {"cases": len(which) + 1 + ("split_by_flag" in which), "bound": "bundled chr9 data; variants %s" % which, "violations": viol, "samples": [{"variants": which}]}
